@@ -137,6 +137,12 @@ class Ctx:
                 print(f"VIOLATION property={self.pid} replay={p}")
                 print(f"  clause={v['clause']} detail={canon(v['detail'])[:400]}")
             print(f"  ({len(self.violations)} violating observation(s) in total)")
+            hist: dict[str, int] = {}
+            for v in self.violations:
+                k = v["clause"] + " " + canon(v["features"])
+                hist[k] = hist.get(k, 0) + 1
+            for k, n in sorted(hist.items(), key=lambda kv: -kv[1])[:30]:
+                print(f"  summary: {n} x {k}")
         for what, n in sorted(self.drift.items()):
             print(f"MODEL-DRIFT property={self.pid} {what} x{n}")
         cov = {
